@@ -14,3 +14,5 @@ import Reamber.Props.C13
 #print axioms Reamber.Rate.frame_spec_sound
 #print axioms Reamber.Rate.rate_write_read_partial
 #print axioms Reamber.Rate.d04_offset_must_scale
+#print axioms Reamber.Rate.rate_write_read_qua
+#print axioms Reamber.Rate.rate_write_read_osu_partial
